@@ -290,6 +290,25 @@ func (w *World) opGCPass(op Op) {
 		// was the repository skipped by the pass? collect it directly and look again
 		for _, repo := range sortedKeys(left) {
 			mr := w.m.repo(repo)
+			// content of the known families (a manifest that only lives in a child list the server no longer has) is neither
+			// served nor collected: reported under the family, and the run goes on
+			family := ""
+			for _, it := range left[repo] {
+				if why := mr.causeOf(strings.TrimPrefix(it, "manifest ")); why != "" {
+					family = why
+				}
+			}
+			if family != "" {
+				w.x.viol([]string{"C06"}, "gc.garbage-left", w.garbageKind(mr, left[repo][0])+" ["+family+"]", fmt.Sprintf("one collection pass left %v in %s [%s]", left[repo], repo, family))
+				mr.resyncOrphans()
+				w.x.resync()
+				for _, it := range left[repo] {
+					d := strings.TrimPrefix(it, "manifest ")
+					delete(wants[repo].blobs, d)
+					delete(wants[repo].mans, d)
+				}
+				continue
+			}
 			what := w.garbageKind(mr, left[repo][0])
 			_ = w.forceGC(repo)
 			still := false
